@@ -27,6 +27,10 @@ const (
 
 	// Maximum message size allowed from peer.
 	maxMessageSizeV1 = 512
+
+	// Events a listener may have queued for its peer beyond the msghub history, which is
+	// replayed in one go when the listener registers.
+	listenerQueueSlackV1 = 100
 )
 
 // options for gorilla connection upgrader
@@ -49,10 +53,13 @@ type msgListenerV1 struct {
 
 // newMsgListenerV1 creates a listener and registers it.  Optional mailbox parameter will restrict
 // messages sent to WebSocket to that mailbox only.
-func newMsgListenerV1(hub *msghub.Hub, mailbox string) *msgListenerV1 {
+func newMsgListenerV1(hub *msghub.Hub, mailbox string, historyLen int) *msgListenerV1 {
+	if historyLen < 0 {
+		historyLen = 0
+	}
 	ml := &msgListenerV1{
 		hub:     hub,
-		c:       make(chan event.MessageMetadata, 100),
+		c:       make(chan event.MessageMetadata, historyLen+listenerQueueSlackV1),
 		done:    make(chan struct{}),
 		mailbox: mailbox,
 	}
@@ -200,7 +207,7 @@ func MonitorAllMessagesV1(
 	log.Debug().Str("module", "rest").Str("proto", "WebSocket").
 		Str("remote", conn.RemoteAddr().String()).Msg("Upgraded to WebSocket")
 	// Create, register listener; then interact with conn.
-	ml := newMsgListenerV1(ctx.MsgHub, "")
+	ml := newMsgListenerV1(ctx.MsgHub, "", ctx.WebConfig.MonitorHistory)
 	go ml.WSWriter(conn)
 	ml.WSReader(conn)
 	return nil
@@ -227,7 +234,7 @@ func MonitorMailboxMessagesV1(
 	log.Debug().Str("module", "rest").Str("proto", "WebSocket").
 		Str("remote", conn.RemoteAddr().String()).Msg("Upgraded to WebSocket")
 	// Create, register listener; then interact with conn.
-	ml := newMsgListenerV1(ctx.MsgHub, name)
+	ml := newMsgListenerV1(ctx.MsgHub, name, ctx.WebConfig.MonitorHistory)
 	go ml.WSWriter(conn)
 	ml.WSReader(conn)
 	return nil
